@@ -197,6 +197,16 @@ def one(ctx, fam, i):
                 c2 = {**case, "provided": core.jsonable(provided), "select": core.jsonable(form)}
                 if o.exc is None and o.values is not None and pin in o.values:
                     ctx.violation("C16:plain-input-returned", f"{runner}: select={form!r} returned the plain input {pin!r}: {core.short(o.values)}", c2)
+        if rng.random() < 0.3:
+            # an EMPTY run-time selection (a computed list that matched nothing) requests nothing: completed, failed
+            # and paused results alike hold no value - it overrides the graph's default selection like any other
+            for form in ([], ()):
+                for fail_ in (None, ({rng.choice(fids): RuntimeError("boom")} if fids else None)):
+                    k3 = {"fail": fail_} if fail_ else {}
+                    o = core.execute(built, provided, runner, select=form, error_handling="continue", max_iterations=100, **k3)
+                    ctx.obs["empty_selection_probes"] += 1
+                    if o.exc is None and o.values:
+                        ctx.violation("C16:unselected-key", f"{runner}: select={form!r} (nothing requested) returned {core.short(o.values)} with status {o.status}", {**case, "provided": core.jsonable(provided), "select": core.jsonable(form)})
         for rep in range(2 if cache is not None else 1):
             for fail in (None, ({rng.choice(fids): RuntimeError("boom")} if fids and rng.random() < 0.4 else None)):
                 sched = rt.Sched(default="rand", rng=rng) if runner == "async" else None
